@@ -68,6 +68,14 @@ func newMonitor(r *mon.Run, cfg string) *monitor {
 		m.keys = append(m.keys, k)
 		name(fmt.Sprintf("dust:%d", i), crypto.PubkeyToAddress(k.PublicKey))
 	}
+	for i := 0; i < 4; i++ { // AUTH authorities
+		k, err := crypto.ToECDSA(keccak([]byte(fmt.Sprintf("c06-authority-%d", i))))
+		if err != nil {
+			panic(err)
+		}
+		m.keys = append(m.keys, k)
+		name(fmt.Sprintf("auth:%d", i), crypto.PubkeyToAddress(k.PublicKey))
+	}
 	for i := 1; i <= 18; i++ {
 		name(fmt.Sprintf("pre:%d", i), common.BytesToAddress([]byte{byte(i)}))
 	}
@@ -314,8 +322,8 @@ func (m *monitor) runSequence(fix *snapshotState, seq int, specs []*TxSpec, bloc
 	i := 0
 	for i < len(specs) {
 		j := i + 1
-		if blockMode && specs[i].Kind != "mature" && specs[i].Kind != "reward" {
-			for j < len(specs) && specs[j].Kind != "mature" && specs[j].Kind != "reward" && j-i < 12 {
+		if blockMode && !splits(specs[i]) {
+			for j < len(specs) && !splits(specs[j]) && j-i < 12 {
 				j++
 			}
 		}
@@ -329,6 +337,8 @@ func (m *monitor) runSequence(fix *snapshotState, seq int, specs []*TxSpec, bloc
 	m.wit.At = len(specs)
 	m.checkClosure()
 }
+
+func splits(s *TxSpec) bool { return s.Kind == "mature" || s.Kind == "reward" || s.Kind == "barrier" }
 
 func childMain(r *mon.Run, args []string) {
 	cfg := args[0]
@@ -352,9 +362,9 @@ func childMain(r *mon.Run, args []string) {
 	r.Count("fixture_ok", 1)
 	fix := m.save()
 	for seq := shard; seq < nseq; seq += nshards {
-		specs, special := sequence(r.Rand("seq", cfg, seq), cfg, seq)
+		specs, special, blockToo := sequence(r.Rand("seq", cfg, seq), cfg, seq)
 		m.runSequence(fix, seq, specs, false)
-		if !special && seq%3 == 0 {
+		if blockToo || (!special && seq%3 == 0) {
 			m.runSequence(fix, seq, specs, true)
 		}
 		if seq < 2 && shard == seq {
@@ -449,6 +459,6 @@ func main() {
 			"configuration 'empty' replicates VMExecutor.Execute in the harness (core cannot run without a chain); deductGasFee of core is only exercised in configuration 'genesis'",
 		},
 		MustObserve: []string{"fixture_ok", "conservation_checks", "closure_checks", "sums_checked", "tx:transfer:ok", "tx:transfer:failed", "tx:create:ok", "tx:create:failed",
-			"tx:call:ok", "tx:miner-apply:ok", "dust_sender_txs", "dust_sender_fee_refused", "dust_sender_fee_paid", "selfdestruct_ops", "value_moving_frames", "frames_failed", "stake_opcodes", "matured_wei_nonzero", "block_mode_blocks", "trie_slots_iterated"},
+			"tx:call:ok", "tx:miner-apply:ok", "dust_sender_txs", "template:authcall", "authcall_value_moved", "template:stale-gas:early-fail", "template:stale-gas:heavy", "dust_sender_fee_refused", "dust_sender_fee_paid", "selfdestruct_ops", "value_moving_frames", "frames_failed", "stake_opcodes", "matured_wei_nonzero", "block_mode_blocks", "trie_slots_iterated"},
 	})
 }
